@@ -31,7 +31,7 @@ use crate::Float;
 
 */
 
-use crate::{Point3D, PointInTriangle, Polygon3D, Segment3D, Triangle3D};
+use crate::{Loop3D, Point3D, PointInTriangle, Polygon3D, Segment3D, Triangle3D};
 
 #[derive(Clone, Copy, Eq, PartialEq, Debug)]
 #[repr(u8)]
@@ -298,7 +298,11 @@ impl Triangulation3D {
             // an ear is a convex corner (a chord across a reflex corner can also be a diagonal
             // once holes have been merged into the outline)
             let is_convex = (v1 - v0).cross(v2 - v1) * the_loop.normal() > 0.;
-            if !is_line && is_convex && is_diagonal {
+            if !is_line
+                && is_convex
+                && is_diagonal
+                && !Self::ear_contains_vertex(&the_loop, v0, v1, v2)?
+            {
                 // Add triangle
                 t.push(v0, v1, v2, last_added)?;
 
@@ -322,6 +326,28 @@ impl Triangulation3D {
                 anchor += 1;
             }
         } //end of loop{}
+    }
+
+    /// Checks whether any vertex of a [`Loop3D`], other than the corners `v0`, `v1`, `v2` of a
+    /// candidate ear, lies in that ear (in its interior or on its boundary). With holes merged
+    /// into the outline, a chord can be a diagonal and still cut off a piece that has
+    /// part of the outline inside.
+    fn ear_contains_vertex(
+        the_loop: &Loop3D,
+        v0: Point3D,
+        v1: Point3D,
+        v2: Point3D,
+    ) -> Result<bool, String> {
+        let ear = Triangle3D::new(v0, v1, v2)?;
+        for v in the_loop.vertices() {
+            if v.compare(v0) || v.compare(v1) || v.compare(v2) {
+                continue;
+            }
+            if ear.test_point(*v) != PointInTriangle::Outside {
+                return Ok(true);
+            }
+        }
+        Ok(false)
     }
 
     /// Returns the number of [`Triangle3D`] in the [`Triangulation3D`]
